@@ -262,7 +262,7 @@ impl<'i> Visitor<'i> for CountVisitor {
     }
     fn visit_instr(&mut self, _i: &'i walrus::ir::Instr, loc: &'i walrus::InstrLocId) {
         self.instrs += 1;
-        self.h = self.h.wrapping_mul(31).wrapping_add(loc.data() as u64);
+        self.h = self.h.wrapping_mul(31).wrapping_add(if loc.is_default() { 0xffff_ffff } else { loc.data() as u64 });
     }
     fn visit_local_id(&mut self, id: &walrus::LocalId) {
         self.locals += 1;
